@@ -30,6 +30,11 @@ def main():
         rc = ctx.finish()
     except MachineryError as e:
         print('MACHINERY-FAILURE property=%s: %s' % (prop, e), file=sys.stderr)
+        # a check that had already recorded violations when it could not go on (typically: the changed library left it
+        # nothing to continue with) reports them - stopping silently would hide what it had found
+        if ctx.violations and not a.replay:
+            rc = ctx.finish()
+            sys.exit(rc if rc else 2)
         sys.exit(2)
     except SystemExit:
         raise
